@@ -1,0 +1,79 @@
+//go:build verif
+
+package runner
+
+import (
+	"fmt"
+	"os"
+	"runtime"
+	"strconv"
+	"time"
+)
+
+// Scheduling perturbation for the verification harness (hook H1).
+//
+// With VERIF_SCHED_SEED=<n> in the environment every call of verifYield
+// decides, from n, the call site and a per-site call counter, whether the
+// calling goroutine yields (runtime.Gosched, 1-3 times), sleeps 1-200µs, or
+// continues. Without the variable the calls do nothing.
+//
+// The hook must not order the goroutines it perturbs: it uses no mutex, no
+// channel and no atomic operation, and the counters are plain words updated
+// inside a //go:norace function, so that the race detector neither reports
+// them nor derives happens-before edges from them. Lost updates of a counter
+// only change the perturbation.
+
+const verifSites = 8
+
+var (
+	verifSeed uint64
+	verifOn   bool
+	verifCtr  [verifSites * 8]uint64 // one counter per site, 64 bytes apart
+)
+
+func init() {
+	s := os.Getenv("VERIF_SCHED_SEED")
+	if s == "" {
+		return
+	}
+	n, err := strconv.ParseUint(s, 10, 64)
+	if err != nil {
+		return
+	}
+	verifSeed, verifOn = n, true
+	if os.Getenv("VERIF_SCHED_DEBUG") == "1" {
+		fmt.Fprintf(os.Stderr, "verif: scheduling hook active, seed %d\n", n)
+	}
+}
+
+//go:norace
+func verifNext(point string) uint64 {
+	h := uint64(14695981039346656037)
+	for i := 0; i < len(point); i++ {
+		h = (h ^ uint64(point[i])) * 1099511628211
+	}
+	c := &verifCtr[(h%verifSites)*8]
+	*c++
+	x := verifSeed ^ h ^ (*c * 0x9E3779B97F4A7C15)
+	x ^= x >> 30
+	x *= 0xBF58476D1CE4E5B9
+	x ^= x >> 27
+	x *= 0x94D049BB133111EB
+	x ^= x >> 31
+	return x
+}
+
+func verifYield(point string) {
+	if !verifOn {
+		return
+	}
+	x := verifNext(point)
+	switch x & 7 {
+	case 0, 1:
+		for n := 1 + (x>>3)%3; n > 0; n-- {
+			runtime.Gosched()
+		}
+	case 2:
+		time.Sleep(time.Duration(1+(x>>3)%200) * time.Microsecond)
+	}
+}
